@@ -66,7 +66,7 @@ def run(ctx):
                          "inline {regex: P} accepts (both equal a python search on a common regex subset); the Coq model of the /P/ token extraction is run on the same texts; "
                          "non-trivial = list with >= 3 values / pattern with an escape")
     # ---------- enum ----------
-    n = 80 if quick else 4000
+    n = 400 if quick else 8000
     ecases = []
     for _ in range(n):
         vals = rng.sample(VALUES, rng.randint(1, 6))
@@ -96,7 +96,7 @@ def run(ctx):
             ctx.report("enum rule with a duplicated value is accepted: %r" % t[:100], "c18d:" + t, {"enum": t}, case=t)
     # named vs inline
     lines, meta = [], []
-    for vals, text, _ in ecases[: (60 if quick else 2500)]:
+    for vals, text, _ in ecases[: (300 if quick else 5000)]:
         ex = vals[0]
         probes = VALUES + ['"zz"', "7"]
         for form in ("named", "inline"):
@@ -120,7 +120,7 @@ def run(ctx):
                 ctx.report("document %s against enum %s: named rule %s, inline list %s, membership %s" % (p, vals, x, y, want), "c18m:" + text + p,
                            {"enum": text, "values": vals, "document": p, "named": x, "inline": y, "expected": want}, case=text)
     # ---------- regex ----------
-    pats = [rand_pattern(rng) for _ in range(60 if quick else 3000)] + ["a\\\\", "^C:\\\\", "a\\/b", "[a-c]+\\\\"]
+    pats = [rand_pattern(rng) for _ in range(300 if quick else 6000)] + ["a\\\\", "^C:\\\\", "a\\/b", "[a-c]+\\\\"]
     rlines = [json.dumps({"text": "/%s/%s" % (p, rng.choice(["", " trailing text", "\nNEXT /x/"]))}) for p in pats]
     routs = vc.impl_parallel(["regextype"], rlines)
     mlines = [json.loads(l)["text"].encode().hex() for l in rlines]
